@@ -676,7 +676,7 @@ func init() {
 			Desc: fmt.Sprintf("%d histories over {m,P,S} of length<=4 with exactly one stop request; the driver waits on the context, then probes", len(one)),
 			Make: func() vsched.Instance { return histInstance(one, histOracle) }})
 		two := mk(allHists("mPS", 3, func(h string) bool { return countAny(h, "PS") == 2 }), histParams{MaxRestarts: 3, Mode: mode, Late: true})
-		Register(&Job{Name: fmt.Sprintf("C07/hist/two-stops-mode%d", mode), Prop: "C07", Family: "trigger:D3", Bound: 1, BoundT: 2, Budget: 40, BudgetT: 600,
+		Register(&Job{Name: fmt.Sprintf("C07/hist/two-stops-mode%d", mode), Prop: "C07", Family: "regression:D3 (fixed)", Bound: 1, BoundT: 2, Budget: 40, BudgetT: 600,
 			Desc: fmt.Sprintf("%d histories over {m,P,S} of length<=3 with two stop requests", len(two)),
 			Make: func() vsched.Instance { return histInstance(two, histOracle) }})
 		// a crash and a stop request in one history. Clean: the crash comes before the stop request
@@ -700,11 +700,11 @@ func init() {
 				behindEx = append(behindEx, histParams{Hist: h, MaxRestarts: r, Mode: mode, Late: true})
 			}
 		}
-		Register(&Job{Name: fmt.Sprintf("C07/hist/stop-behind-max-restarts-mode%d", mode), Prop: "C07", Family: "trigger:D3", Bound: 1, BoundT: 2, Budget: 40, BudgetT: 600,
+		Register(&Job{Name: fmt.Sprintf("C07/hist/stop-behind-max-restarts-mode%d", mode), Prop: "C07", Family: "regression:D3 (fixed)", Bound: 1, BoundT: 2, Budget: 40, BudgetT: 600,
 			Desc: fmt.Sprintf("%d histories over {m,X,P,S} of length<=3 (MaxRestarts 0,1) in which a stop request is queued behind the panic that exceeds max restarts", len(behindEx)),
 			Make: func() vsched.Instance { return histInstance(behindEx, histOracle) }})
 		crashD4 := mk(allHists("mxP", 3, func(h string) bool { return oneEach(h) && isD4(h) }), histParams{MaxRestarts: 3, Mode: mode, Late: true})
-		Register(&Job{Name: fmt.Sprintf("C07/hist/crash-behind-poison-mode%d", mode), Prop: "C07", Family: "trigger:D4", Bound: 1, BoundT: 2, Budget: 40, BudgetT: 600,
+		Register(&Job{Name: fmt.Sprintf("C07/hist/crash-behind-poison-mode%d", mode), Prop: "C07", Family: "regression:D4 (fixed)", Bound: 1, BoundT: 2, Budget: 40, BudgetT: 600,
 			Desc: fmt.Sprintf("%d histories over {m,x,P} of length<=3 in which a message that panics is queued behind a graceful poison pill (crash while draining)", len(crashD4)),
 			Make: func() vsched.Instance { return histInstance(crashD4, histOracle) }})
 	}
